@@ -400,6 +400,8 @@ def handles(tier, seed):
             if d["aid"] != ids_order[a] or d["typed_aid"] != ids_order[a] or d["ent_aid"] != ids_order[a] or d["const_id"] != ids_order[a] or d["try"] != want_try \
                or d["from_any_panics"] != [not x for x in want_try] or not d["rt"] or d["sel"] != a or not d["eq"]:
                 violations.append({"tags": ["C14", "C15"], "what": "direct-handle conversions of archetype %d disagree with the table" % a, "at": 0, "event": d, "origin": {"engine": "handles"}})
+        if obs[-1].get("direct_eq_ok") is False:
+            violations.append({"tags": ["C14"], "what": "direct handles: == / Hash disagree with equality of the (key, version) pair over a churn history (handles differing in both fields)", "at": 0, "event": {}, "origin": {"engine": "handles"}})
         if obs[-1].get("step_ok") is False:
             violations.append({"tags": ["C07", "C06"], "what": "EcsStep / EcsStepDestroy: Default, From<()>, From<EcsStep> or is_destroy() disagree with the documented meaning of the four decisions", "at": 0, "event": {}, "origin": {"engine": "handles"}})
         if obs[-1].get("err_values_ok") is False:
